@@ -12,8 +12,7 @@ Section Cluster.
   Let np := length dbs.
   Hypothesis dbs_ok : forall p, (p < np)%nat ->
     sorted_db (nth p dbs []) /\
-    Forall (fun raw => extract_table raw <> None) (rawkeys d (nth p dbs [])) /\
-    ~ In (type_prefix d ++ wrap_cursor table []) (nth p dbs []).
+    Forall (fun raw => extract_table raw <> None) (rawkeys d (nth p dbs [])).
   Hypothesis table_ok : ~ In key_sep table.
   Hypothesis pat_ok : matcher compile pat = Some m.
   Variable reverse : bool.
@@ -31,11 +30,10 @@ Section Cluster.
 
   Lemma db_ok_any p :
     sorted_db (nth p dbs []) /\
-    Forall (fun raw => extract_table raw <> None) (rawkeys d (nth p dbs [])) /\
-    ~ In (type_prefix d ++ wrap_cursor table []) (nth p dbs []).
+    Forall (fun raw => extract_table raw <> None) (rawkeys d (nth p dbs [])).
   Proof.
     destruct (Nat.lt_ge_cases p np) as [H|H]; [now apply dbs_ok|].
-    rewrite nth_overflow by exact H. repeat split; [constructor|constructor|intros []].
+    rewrite nth_overflow by exact H. split; constructor.
   Qed.
 
   Lemma part_result_remaining c p :
@@ -53,9 +51,7 @@ Section Cluster.
     (next = [] -> rem' = []) /\
     (next <> [] -> items <> [] /\ rem' = part_result next p).
   Proof.
-    destruct (db_ok_any p) as [Hs [Hk Hn]]. unfold call.
-    assert (forall x, In x (rev (rawkeys d (nth p dbs []))) -> same_table table x = true -> rk_of x <> []) as Hrkr.
-    { intros x Hx. apply in_rev in Hx. now apply (rk_nonempty (nth p dbs []) d table table_ok Hn). }
+    destruct (db_ok_any p) as [Hs Hk]. unfold call.
     rewrite part_result_remaining.
     assert (forall nx, part_result nx p =
               if reverse
@@ -66,15 +62,15 @@ Section Cluster.
     - rewrite (key_call_rev compile _ d table pat m cnt Hs table_ok Hk pat_ok Hc).
       destruct (cut_step ltr ltr_irrefl ltr_trans (fun _ => Err) m _ (rawkeys_rev_sorted _ d Hs)
                   (eff_count cnt) (eff_count_pos cnt Hc) (same_table table) rk_of (wrap_cursor table)
-                  (wrap_rk table table_ok) Hrkr (down_closed_rev (nth p dbs []) d table table_ok Hn) c)
+                  (wrap_rk table table_ok) (rk_empty_last_rev (nth p dbs []) d table m table_ok) (down_closed_rev table table_ok) c)
         as [items [next [rem' [E [H1 [H2 H3]]]]]].
       exists items, next, rem'. rewrite E. repeat split; auto; try (now apply H3).
       rewrite Hpr. now apply H3.
     - rewrite (key_call_fwd compile _ d table pat m cnt Hs table_ok Hk pat_ok Hc).
       destruct (cut_step ltf ltf_irrefl ltf_trans (fun _ => Err) m _ (rawkeys_sorted _ d Hs)
                   (eff_count cnt) (eff_count_pos cnt Hc) (same_table table) rk_of (wrap_cursor table)
-                  (wrap_rk table table_ok) (rk_nonempty (nth p dbs []) d table table_ok Hn)
-                  (down_closed_fwd (nth p dbs []) d table table_ok Hn) c)
+                  (wrap_rk table table_ok) (rk_empty_last_fwd (nth p dbs []) d table m table_ok)
+                  (down_closed_fwd table table_ok) c)
         as [items [next [rem' [E [H1 [H2 H3]]]]]].
       exists items, next, rem'. rewrite E. repeat split; auto; try (now apply H3).
       rewrite Hpr. now apply H3.
@@ -82,7 +78,7 @@ Section Cluster.
       rewrite (key_call_rev0 compile _ d table pat m cnt Hs table_ok Hk pat_ok Hc0).
       destruct (cut_step0 ltr ltr_irrefl ltr_trans (fun _ => Err) m _ (rawkeys_rev_sorted _ d Hs)
                   (N.to_nat default_scan_count) n0_pos (same_table table) rk_of (wrap_cursor table)
-                  (wrap_rk table table_ok) Hrkr (down_closed_rev (nth p dbs []) d table table_ok Hn) c)
+                  (wrap_rk table table_ok) (rk_empty_last_rev (nth p dbs []) d table m table_ok) (down_closed_rev table table_ok) c)
         as [items [next [rem' [E [H1 [H2 H3]]]]]].
       exists items, next, rem'. rewrite E. repeat split; auto; try (now apply H3).
       rewrite Hpr. now apply H3.
@@ -90,8 +86,8 @@ Section Cluster.
       rewrite (key_call_fwd0 compile _ d table pat m cnt Hs table_ok Hk pat_ok Hc0).
       destruct (cut_step0 ltf ltf_irrefl ltf_trans (fun _ => Err) m _ (rawkeys_sorted _ d Hs)
                   (N.to_nat default_scan_count) n0_pos (same_table table) rk_of (wrap_cursor table)
-                  (wrap_rk table table_ok) (rk_nonempty (nth p dbs []) d table table_ok Hn)
-                  (down_closed_fwd (nth p dbs []) d table table_ok Hn) c)
+                  (wrap_rk table table_ok) (rk_empty_last_fwd (nth p dbs []) d table m table_ok)
+                  (down_closed_fwd table table_ok) c)
         as [items [next [rem' [E [H1 [H2 H3]]]]]].
       exists items, next, rem'. rewrite E. repeat split; auto; try (now apply H3).
       rewrite Hpr. now apply H3.
